@@ -254,6 +254,24 @@ theorem isTopEig_relabel [CommSemiring K] [LE K] (π : Equiv.Perm (Fin n)) {B : 
     rw [← this, ← sumFin_perm π (fun i => w (π.symm i) * V i c)]
     exact sumFin_congr fun j => by simp
 
+theorem isBottomEig_relabel [CommSemiring K] [LE K] (π : Equiv.Perm (Fin n)) {B : Mat n n K} {V : Mat n d K}
+    {lam : Vec d K} (h : IsBottomEig B V lam) : IsBottomEig (relabel π B) (permRows π V) lam := by
+  refine ⟨isEigSys_relabel π h.1, fun μ w hw hev horth c => ?_⟩
+  refine h.2 μ (fun i => w (π.symm i)) ?_ ?_ ?_ c
+  · obtain ⟨i, hi⟩ := hw
+    exact ⟨π i, by simpa using hi⟩
+  · intro i
+    have := hev (π.symm i)
+    unfold relabel at this
+    simp only [Equiv.apply_symm_apply] at this
+    rw [← this, ← sumFin_perm π (fun j => B i j * w (π.symm j))]
+    exact sumFin_congr fun j => by simp
+  · intro c
+    have := horth c
+    unfold permRows at this
+    rw [← this, ← sumFin_perm π (fun i => w (π.symm i) * V i c)]
+    exact sumFin_congr fun j => by simp
+
 theorem isEigSys_scale [CommSemiring K] (a : K) {B : Mat n n K} {V : Mat n d K} {lam : Vec d K}
     (h : IsEigSys B V lam) : IsEigSys (fun i j => a * B i j) V (fun c => a * lam c) := by
   refine ⟨fun i c => ?_, h.2⟩
